@@ -10,6 +10,7 @@ import (
 	"net/http/httptest"
 	"strings"
 	"sync"
+	"sync/atomic"
 	"time"
 
 	connect "github.com/bufbuild/connect-go"
@@ -271,7 +272,52 @@ func equalMsgs(a, b [][]byte) bool {
 	return true
 }
 
+// phantomRequestProbe (F34): a message the sender's codec refuses to encode was never sent. The
+// call fails on the client - and the handler must not run with a message nobody sent (an empty
+// unary Connect body *is* a valid zero message).
+func phantomRequestProbe(c *Ctx) {
+	for _, proto := range []string{"connect", "grpc", "grpcweb"} {
+		for _, transport := range []string{"inproc", "h2", "h1"} {
+			for _, comp := range []string{"", "rle"} {
+				runs := int32(0)
+				h := connect.NewUnaryHandler("/s/m", func(ctx context.Context, r *connect.Request[[]byte]) (*connect.Response[[]byte], error) {
+					atomic.AddInt32(&runs, 1)
+					return connect.NewResponse(&[]byte{1}), nil
+				}, connect.WithCodec(rawCodec{"raw"}), connect.WithCompression("rle", newRLEDecompressor, newRLECompressor))
+				desc := fmt.Sprintf("%s unary call (%s, send compression %q) whose message the client's codec refuses to marshal, then a good call", proto, transport, comp)
+				c.Begin(desc)
+				c.Count("phantom-request-probe")
+				got := safely(func() string {
+					var hc connect.HTTPClient = &inprocClient{h: h}
+					url := "http://h/s/m"
+					if transport != "inproc" {
+						srv := httptest.NewUnstartedServer(h)
+						srv.EnableHTTP2 = transport == "h2"
+						srv.StartTLS()
+						defer srv.Close()
+						hc, url = srv.Client(), srv.URL+"/s/m"
+					}
+					opts := append(protoOpts(proto), connect.WithCodec(pickyCodec{rawCodec{"raw"}}), connect.WithAcceptCompression("rle", newRLEDecompressor, newRLECompressor))
+					if comp != "" {
+						opts = append(opts, connect.WithSendCompression(comp), connect.WithCompressMinBytes(0))
+					}
+					cl := connect.NewClient[[]byte, []byte](hc, url, opts...)
+					_, err := cl.CallUnary(context.Background(), connect.NewRequest(&[]byte{0xBD, 1, 2}))
+					time.Sleep(30 * time.Millisecond) // a request that went out all the same has been served by now
+					after := atomic.LoadInt32(&runs)
+					_, err2 := cl.CallUnary(context.Background(), connect.NewRequest(&[]byte{7}))
+					return fmt.Sprintf("refused call failed=%v handler runs after it=%d next call ok=%v", err != nil, after, err2 == nil)
+				})
+				if got != "refused call failed=true handler runs after it=0 next call ok=true" {
+					c.Fail("e2e-phantom-message", desc, got, "the receiving side yields what the sending side passed in: a message that could not be encoded is not an empty message")
+				}
+			}
+		}
+	}
+}
+
 func streamE2E(c *Ctx) {
+	phantomRequestProbe(c)
 	r := c.Rng
 	protos := []string{"connect", "grpc", "grpcweb"}
 	kinds := []string{"unary", "client", "server", "bidi"}
